@@ -75,7 +75,7 @@ func NewC05(tier string) *C05 {
 		"dep_ok", "dep_disputed", "dep_negfee", "dep_huge", "dep_huge_dec6", "dep_huge_dec24", "dep_zero", "dep_unknown_token", "dep_unknown_chain", "dep_to_hub_short_recv", "dep_negfee_hub",
 		"exec_first", "exec_first_hugefee", "exec_unknown", "valset_event", "logic_event", "prices", "prices_partial", "holders", "observe_far", "prices_extra_name_by_powerless", "holders_by_powerless",
 		"delegate_dup_ext", "delegate_dup_orch", "delegate_fresh",
-		"dep_big", "send_bigfee", "send_big1", "dep_minter_ok", "param_eth_fast", "param_hub_slow",
+		"dep_big", "send_bigfee", "send_big1", "dep_minter_ok", "param_eth_fast", "param_hub_slow", "observe_top", "observe_neartop",
 		"holders_one_nil", "holders_nil_last_empty_majority", "prices_dup_name", "prices_huge_extra", "prices_nil_value_extra", "prices_negative_extra", "prop_cold_hub", "prop_tokeninfos_empty"}
 	c.Pairs = [][2]string{{"send2", "send70"}, {"send1", "send65"}, {"dep_ok", "send70"}, {"observe_far", "send2"}, {"prices", "exec_first"}, {"reqbatch", "send70"}, {"send70", "reqbatch"}}
 	// a key registration that is rejected (address / orchestrator already in use) or accepted in the middle of a block that
@@ -122,6 +122,13 @@ func (c *C05) seedPaths() [][]engine.Op {
 		{blk(5, "empty"), blk(5, "send2")},
 		{blk(5, "dep_ok"), blk(5, "send70", "reqbatch"), blk(5, "observe_far")},
 		{blk(5, "prices"), blk(5, "empty"), blk(5, "empty"), blk(5, "empty"), blk(5, "send2", "reqbatch")},
+		// a chain connected by governance after genesis: keys registered, its first signer-set event observed, a withdrawal
+		{blk(5, "gov_add_chain", "keys_polygon"), blk(5, "polygon_event"), blk(5, "send_polygon")},
+		{blk(5, "empty"), blk(5, "gov_add_chain", "keys_polygon"), blk(5, "polygon_event"), blk(5, "send_polygon")},
+		// external heights at the top of the uint64 range have been observed (batches are built at even heights; the
+		// projection grows with every hub block since the observation)
+		{blk(5, "observe_top")},
+		{blk(5, "observe_neartop"), blk(5, "empty"), blk(5, "empty"), blk(5, "empty"), blk(5, "empty"), blk(5, "empty"), blk(5, "empty"), blk(5, "empty"), blk(5, "empty"), blk(5, "empty"), blk(5, "empty"), blk(5, "empty"), blk(5, "empty")},
 		// block-time parameters changed by governance after events of ethereum and Minter have been observed
 		{blk(5, "dep_ok", "dep_minter_ok"), blk(5, "param_eth_fast")},
 		{blk(5, "dep_ok", "dep_minter_ok"), blk(5, "param_hub_slow")},
@@ -507,6 +514,29 @@ func (c *C05) item(in *hub.Instance, ns *c05State, it string, st *engine.Step) {
 		c.vote(in, ns, "bsc", func(n uint64) mhubtypes.ExternalEvent {
 			return &mhubtypes.BatchExecutedEvent{ExternalCoinId: BscHub, EventNonce: n, ExternalHeight: 1000 + n, BatchNonce: 77, TxHash: fmt.Sprintf("0xeu%d", n), FeePaid: sdk.NewInt(1), FeePayer: hub.HexAddr("relayer")}
 		}, st)
+	case "gov_add_chain":
+		// governance connects another chain: the Chains parameter and a token row for it (nothing else knows the chain:
+		// the module has block times for ethereum, bsc, minter and the hub only)
+		if err := in.ParamChange(mhubtypes.DefaultParamspace, "Chains", `["ethereum","minter","bsc","hub","polygon"]`); err == nil {
+			st.Count("parameter_changes", 1)
+		}
+		ti := in.Hub.GetTokenInfos(in.Ctx())
+		ti.TokenInfos = append(ti.TokenInfos, &mhubtypes.TokenInfo{Id: 99, Denom: "hub", ChainId: "polygon", ExternalTokenId: hub.HexAddr("hub-on-polygon"), ExternalDecimals: 18, Commission: sdk.NewDec(1).QuoInt64(100)})
+		_ = in.Proposal(&mhubtypes.TokenInfosChangeProposal{NewInfos: ti})
+	case "keys_polygon":
+		for _, v := range c.Vals {
+			seq, _ := in.Acc.GetSequence(in.Ctx(), v.Acc)
+			c.txOutcome(in.DeliverMsg(hub.DelegateKeysMsg(in.Cdc, v, "polygon", v.Orch, v.EthKey, seq)), st)
+		}
+	case "polygon_event":
+		// the validators report that a signer set was installed in the new chain's contract
+		c.vote(in, ns, "polygon", func(n uint64) mhubtypes.ExternalEvent {
+			return &mhubtypes.SignerSetTxExecutedEvent{EventNonce: n, SignerSetTxNonce: 0, ExternalHeight: 1000 + n, Members: []*mhubtypes.ExternalSigner{{Power: 1 << 31, ExternalAddress: c.Vals[0].Eth.Hex()}}, TxHash: fmt.Sprintf("0xpv%d", n)}
+		}, st)
+	case "send_polygon":
+		if in.DeliverMsg(mhubtypes.NewMsgSendToExternal("polygon", c.User, hub.HexAddr("rcpt"), sdk.NewCoin("hub", sdk.NewInt(100000)), sdk.NewCoin("hub", sdk.NewInt(50)))).OK() {
+			st.Count("sends_ok", 1)
+		}
 	case "valset_event":
 		c.vote(in, ns, "ethereum", func(n uint64) mhubtypes.ExternalEvent {
 			return &mhubtypes.SignerSetTxExecutedEvent{EventNonce: n, SignerSetTxNonce: 1, ExternalHeight: 1000 + n, Members: []*mhubtypes.ExternalSigner{{Power: 1 << 31, ExternalAddress: c.Vals[0].Eth.Hex()}}, TxHash: fmt.Sprintf("0xv%d", n)}
@@ -514,6 +544,16 @@ func (c *C05) item(in *hub.Instance, ns *c05State, it string, st *engine.Step) {
 	case "logic_event":
 		c.vote(in, ns, "ethereum", func(n uint64) mhubtypes.ExternalEvent {
 			return &mhubtypes.ContractCallExecutedEvent{EventNonce: n, InvalidationScope: []byte("scope"), InvalidationNonce: 1, ExternalHeight: 1000 + n, TxHash: fmt.Sprintf("0xl%d", n)}
+		}, st)
+	case "observe_top", "observe_neartop":
+		// an ordinary deposit whose reported external height is the top of the uint64 range (nothing bounds the field):
+		// height + projection + timeout wraps around
+		h := ^uint64(0)
+		if it == "observe_neartop" {
+			h -= 6
+		}
+		c.vote(in, ns, "ethereum", func(n uint64) mhubtypes.ExternalEvent {
+			return &mhubtypes.SendToHubEvent{EventNonce: n, ExternalCoinId: EthHub, Amount: sdk.NewInt(100000), Sender: sender, CosmosReceiver: c.User.String(), ExternalHeight: h, TxHash: fmt.Sprintf("0xtop%d", n)}
 		}, st)
 	case "observe_far":
 		// an ordinary deposit observed at an external height far beyond every batch timeout
